@@ -77,6 +77,21 @@ fn sweep1(cfg: &Cfg, backend: &str, fns: &[Fn1], rep: &mut Report) {
             r.eval();
             check1(backend, f, x, r, Some(&site));
         });
+        // quick tier: besides the boundary-dense 2^22 patterns, EVERY float of a few ill-conditioned neighbourhoods -
+        // 0.99..1 (inverse trigonometry at the ends of its domain), 0.5 +- 2^-8, 1e-4..1.0002e-4, 2^23 - 64..2^23 + 64 - in both signs
+        let mut r = r;
+        if cfg.quick() {
+            for (lo, hi) in [(0.99f32, 1.0f32), (0.49609375, 0.50390625), (1e-4, 1.0002e-4), (8388544.0, 8388672.0), (3.1, 3.2)] {
+                let (a, b) = (lo.to_bits() as u64, hi.to_bits() as u64);
+                let rr = par_range(cfg, (b - a + 1) * 2, |i, r| {
+                    let x = f32::from_bits((a + i / 2) as u32) * if i % 2 == 0 { 1.0 } else { -1.0 };
+                    if !(f.dom)(x) { return; }
+                    r.eval();
+                    check1(backend, f, x, r, Some(&site));
+                });
+                r.merge(rr);
+            }
+        }
         let me = r.margins.get(&site).copied().unwrap_or(0.0);
         rep.merge(r);
         rep.set(&site, me);
@@ -375,11 +390,13 @@ fn tex_repeat_with(r: &mut Report, deep: bool) {
         for k in -(2 * 16 + 1)..=(2 * 16 + 1) { let k = k as f32; cs.extend([k, k + 0.5, f32::from_bits(k.to_bits().wrapping_add(1)), f32::from_bits(k.to_bits().wrapping_sub(1))]); }
         for e in 0..31 { let p = (2.0f32).powi(e); cs.extend([p, -p, p + 1.0, -p - 1.0]); }
         cs.extend([2147483520.0, -2147483648.0, 1e-30, -1e-30, -0.0]);
+        // beyond 2^31, infinite, NaN: any in-range texel will do, a panic will not
+        if deep { cs.extend([3e9f32, -3e9, -2147483904.0, 4294967296.0, -4294967296.0, 1e20, -1e20, f32::MAX, f32::MIN, f32::INFINITY, f32::NEG_INFINITY, f32::NAN]); }
         if deep { for e in 0..31 { let (lo, mid, hi) = ((2.0f32).powi(e).to_bits(), ((2.0f32).powi(e) * 1.5).to_bits(), (2.0f32).powi(e + 1).to_bits()); for k in 0..8u32 { for b in [lo + k, mid + k, mid - 1 - k, hi - 1 - k] { let x = f32::from_bits(b); if x < 2147483648.0 { cs.extend([x, -x]); } } } } }
         for &u in &cs { for &v in &[0.5f32, -0.5, -1.0, -3.0, 2.0] {
             for swap in [false, true] {
                 let (cu, cv) = if swap { (v, u) } else { (u, v) };
-                if !cu.is_finite() || !cv.is_finite() { continue; }
+                if !deep && (!cu.is_finite() || !cv.is_finite()) { continue; }
                 tex_case(&tex, cu, cv, r);
             }
         }}
@@ -392,8 +409,9 @@ fn tex_case(tex: &Texture<Buf2<(u32, u32)>>, cu: f32, cv: f32, r: &mut Report) {
     r.eval();
     let exp = (((cu as f64).floor() as i64).rem_euclid(w as i64) as u32, ((cv as f64).floor() as i64).rem_euclid(h as i64) as u32);
     let case = obj! {"kind" => "tex", "w" => w, "h" => h, "u" => fbits(cu), "v" => fbits(cv)};
+    let free = |c: f32| !(c.abs() < 2147483648.0);
     match caught(|| s.sample_abs(tex, uv(cu, cv))) {
-        Ok(g) if g == exp => { if cu < 0.0 || cv < 0.0 { r.nontrivial(); } }
+        Ok(g) if (g.0 == exp.0 || (free(cu) && g.0 < w)) && (g.1 == exp.1 || (free(cv) && g.1 < h)) => { if cu < 0.0 || cv < 0.0 { r.nontrivial(); } }
         Ok(g) => r.violation(format!("consumer-tex-repeat|{w}x{h}|u={cu}|v={cv}"), format!("[{CFG_NAME}] SamplerRepeatPot {w}x{h} at ({cu},{cv}) -> texel {g:?}, expected {exp:?}"), case),
         Err(p) => r.violation(format!("consumer-tex-repeat-panic|{w}x{h}|u={cu}|v={cv}"), format!("[{CFG_NAME}] SamplerRepeatPot {w}x{h} at ({cu},{cv}) panicked: {p}"), case),
     }
@@ -442,6 +460,22 @@ fn fp_consumers(r: &mut Report) {
                 if (l - 1.0).abs() > tol { r.violation(format!("consumer-normalize|{i}"), format!("[{CFG_NAME}] normalize({v:?}) has length {l}"), obj! {"kind" => "norm", "i" => i}); } else { r.nontrivial(); }
             }
         }
+    }
+    // ... and at the ends of the range: squared lengths that are subnormal (|v| ~ 1e-20) or close to overflow (|v| ~ 1e18).
+    // A subnormal squared length carries fewer bits, so only 1 % is asked - but a finite unit-ish vector it must be.
+    // (micromath's inverse square root mis-seeds on subnormals - a third-party limitation like the two listed for C20 - and is left out)
+    if !cfg!(feature = "cfg_mm") {
+        for (k, sc) in [1e-20f32, 3e-20, 2.5e-21, 1e-19, 1e-15, 1e15, 1e18, 1.5e18].iter().enumerate() { for d in [[3.0f32, 0.0, 4.0], [1.0, -2.0, 2.0], [0.0, 1.0, 0.0], [-0.6, 0.64, 0.48]] {
+            r.eval();
+            let v = vec3::<_, ()>(d[0] * sc, d[1] * sc, d[2] * sc);
+            match caught(|| v.normalize()) {
+                Err(p) => r.violation(format!("consumer-normalize-panic|extreme|{k}|{d:?}"), format!("[{CFG_NAME}] normalize({v:?}) panicked: {p}"), obj! {"kind" => "norm", "i" => 0u32}),
+                Ok(n) => {
+                    let l = (n.x() as f64).hypot(n.y() as f64).hypot(n.z() as f64);
+                    if !((l - 1.0).abs() <= 1e-2) { r.violation(format!("consumer-normalize|extreme|{sc:e}|{d:?}"), format!("[{CFG_NAME}] normalize({v:?}) = {n:?} has length {l}"), obj! {"kind" => "norm", "i" => 0u32}); } else { r.nontrivial(); }
+                }
+            }
+        }}
     }
     // clamp sampler
     for (w, h) in [(1u32, 1u32), (2, 3), (5, 4), (8, 8)] {
@@ -534,6 +568,45 @@ fn run_tex(cfg: &Cfg) -> ! {
     rep.finish(cfg, "exploration", &rule, &["|coordinate| < 2^31 as the property states"]);
 }
 
+#[cfg(not(feature = "cfg_none"))]
+const PRNG_TOL: f64 = if cfg!(feature = "cfg_mm") { 5.0e-3 } else { 1.0e-5 };
+#[cfg(not(feature = "cfg_none"))]
+fn prng_case(s: u64, r: &mut Report) {
+    use re::math::rand::{Distrib, UnitCircle, UnitSphere, VectorsInUnitBall, VectorsOnUnitDisk, Xorshift64};
+    let tol = PRNG_TOL;
+    {
+        r.eval();
+        let case = obj! {"kind" => "prng", "s" => format!("{s:#x}")};
+        let res = caught(|| (UnitCircle.sample(&mut Xorshift64(s)), UnitSphere.sample(&mut Xorshift64(s)), VectorsOnUnitDisk.sample(&mut Xorshift64(s)), VectorsInUnitBall.sample(&mut Xorshift64(s))));
+        match res {
+            Err(p) => r.violation(format!("prng-panic|s={s:#x}"), format!("[{CFG_NAME}] a unit distribution panicked from state {s:#x}: {p}"), case),
+            Ok((c, sp, d, b)) => {
+                let (lc, ls) = ((c.x() as f64).hypot(c.y() as f64), ((sp.x() as f64).powi(2) + (sp.y() as f64).powi(2) + (sp.z() as f64).powi(2)).sqrt());
+                let (ld, lb) = ((d.x() as f64).powi(2) + (d.y() as f64).powi(2), (b.x() as f64).powi(2) + (b.y() as f64).powi(2) + (b.z() as f64).powi(2));
+                if (lc - 1.0).abs() > tol || (ls - 1.0).abs() > tol { r.violation(format!("unit-length|s={s:#x}"), format!("[{CFG_NAME}] from state {s:#x}: UnitCircle sample of length {lc}, UnitSphere sample of length {ls} (tolerance {tol:e})"), case); }
+                else if ld > 1.0 + 2.5e-7 || lb > 1.0 + 2.5e-7 { r.violation(format!("unit-disk-ball|s={s:#x}"), format!("[{CFG_NAME}] from state {s:#x}: disk sample |v|^2 = {ld}, ball sample |v|^2 = {lb}"), case); }
+                else { r.nontrivial(); }
+            }
+        }
+    }
+}
+
+/// C19 in this float configuration: the normalising and rejection-sampled distributions (the only ones that touch the float
+/// backend) over 2^18 spread states and 2^16 consecutive states of one orbit.
+#[cfg(not(feature = "cfg_none"))]
+fn run_prng(cfg: &Cfg) -> ! {
+    use re::math::rand::{Distrib, UnitCircle, UnitSphere, VectorsInUnitBall, VectorsOnUnitDisk, Xorshift64};
+    let mut rep = Report::new();
+    rep.set("configuration", CFG_NAME);
+    let tol = PRNG_TOL;
+    let one = prng_case;
+    rep.merge(par_range(cfg, 1 << 18, |i, r| one((i + 1).wrapping_mul(0x9E3779B97F4A7C15), r)));
+    rep.merge(par_range(cfg, 16, |k, r| { let mut g = Xorshift64((k + 1).wrapping_mul(0xD1B54A32D192ED03) | 1); for _ in 0..4096 { let s = g.0; one(s, r); g.next_bits(); } }));
+    rep.sample(0, || obj! {"configuration" => CFG_NAME, "state" => "0x9e3779b97f4a7c15"});
+    let rule = format!("configuration {CFG_NAME}: UnitCircle / UnitSphere samples have unit length within {tol:e} (the accuracy class of this backend's reciprocal square root per C20) and disk / ball samples lie inside, from 2^18 spread states and 16 x 4096 consecutive states");
+    rep.finish(cfg, "exploration", &rule, &["accuracy class per backend as in C20"]);
+}
+
 fn run_color(cfg: &Cfg) -> ! {
     let mut rep = Report::new();
     rep.set("configuration", CFG_NAME);
@@ -553,6 +626,8 @@ fn replay_case(case: &J, r: &mut Report) {
     match s("kind").as_str() {
         "fn1" => match lookup_fn1(&s("backend"), &s("name")) { Some(f) => check1(&s("backend"), &f, fb("x"), r, None), None => { eprintln!("MACHINERY-ERROR backend {} not in this configuration", s("backend")); std::process::exit(2) } },
         "rem" => { let f: fn(f32, f32) -> f32 = match s("backend").as_str() { "fallback" => float::fallback::rem_euclid, #[cfg(feature = "cfg_mm")] "mm" => float::mm::rem_euclid, #[cfg(feature = "cfg_libm")] "libm" => float::libm::rem_euclid, _ => std::process::exit(2) }; check_rem(&s("backend"), f, fb("x"), fb("m"), r) }
+        #[cfg(not(feature = "cfg_none"))]
+        "prng" => prng_case(u64::from_str_radix(s("s").trim_start_matches("0x"), 16).unwrap_or(1), r),
         #[cfg(not(feature = "cfg_none"))]
         "xform" => xform_case(case.get("i").unwrap().as_u64().unwrap(), r),
         "tri-den" => { let v: Vec<i32> = case.get("t").unwrap().as_arr().unwrap().iter().map(|x| x.as_i64().unwrap() as i32).collect(); let g = |k: &str| case.get(k).unwrap().as_i64().unwrap() as i32; tri_cover_den([(v[0], v[1]), (v[2], v[3]), (v[4], v[5])], g("den"), (g("ox"), g("oy")), r) }
@@ -575,10 +650,12 @@ fn replay_case(case: &J, r: &mut Report) {
 
 fn main() {
     report::install_panic_hook();
-    let cfg = Cfg::from_args(|s| if s.starts_with("color") { "C16".into() } else if s.starts_with("tex") { "C12".into() } else if s.starts_with("xform") { "C09".into() } else if s.starts_with("cover") { "C04".into() } else { "C20".into() });
+    let cfg = Cfg::from_args(|s| if s.starts_with("color") { "C16".into() } else if s.starts_with("tex") { "C12".into() } else if s.starts_with("prng") { "C19".into() } else if s.starts_with("xform") { "C09".into() } else if s.starts_with("cover") { "C04".into() } else { "C20".into() });
     if cfg.replay.is_some() { replay_main(&cfg, replay_case); }
     if cfg.part.starts_with("color") { run_color(&cfg); }
     if cfg.part.starts_with("tex") { run_tex(&cfg); }
+    #[cfg(not(feature = "cfg_none"))]
+    if cfg.part.starts_with("prng") { run_prng(&cfg); }
     if cfg.part.starts_with("cover") { run_cover(&cfg); }
     #[cfg(not(feature = "cfg_none"))]
     if cfg.part.starts_with("xform") { run_xform(&cfg); }
